@@ -269,8 +269,8 @@ theorem synack_establishes (cfg : Cfg) (k : Kernel) (fd : Nat) (so : Socket) (t 
 
 /-- **Full reclamation statement** (C13, second sentence), on the model: for every op sequence, at
     every `stat` taken when no application handle is left, nothing is on the wire, and the network
-    has been silent for a full retransmit period (or `reclaimBound` egress rounds have passed since
-    the last handle was closed), every socket-table entry, binding and connection-index entry is
+    has been silent for `reclaimBound` egress rounds — longer than a full retransmit cycle — (or six
+    times that many rounds have passed since the last handle was closed), every socket-table entry, binding and connection-index entry is
     gone on every host; a later `listen` on a port no live listener holds succeeds; no accept is
     handed out more often than connections were opened (`Spec.c13Check`). -/
 def C13_Reclaim_Statement (cfg : Cfg) : Prop :=
@@ -280,13 +280,17 @@ def srv : SockAddr := ⟨.host 1 false, 9000⟩
 
 def witness_orphan : List Op :=
     [.listen 1 0 srv, .connect 0 0 0 srv, .egress, .deliver 0, .ccancel 0, .egress, .deliver 1,
-    .egress, .deliver 2, .egress, .ldrop 0, .egress, .egress, .egress, .egress, .egress, .stat,
-    .listen 1 1 srv]
+    .egress, .deliver 2, .egress, .ldrop 0, .egress, .egress, .egress, .egress, .egress, .egress,
+    .egress, .egress, .egress, .egress, .egress, .egress, .egress, .egress, .egress, .egress, .egress,
+    .egress, .egress, .egress, .egress, .egress, .egress, .egress, .egress, .egress, .egress, .egress,
+    .egress, .egress, .egress, .egress, .egress, .egress, .stat, .listen 1 1 srv]
 
 def fixed_orphan : List Op :=
     [.listen 1 0 srv, .connect 0 0 0 srv, .egress, .deliver 0, .ccancel 0, .egress, .deliver 1,
-    .egress, .deliver 2, .egress, .ldrop 0, .egress, .egress, .egress, .egress, .egress, .stat,
-    .listen 1 1 srv]
+    .egress, .deliver 2, .egress, .ldrop 0, .egress, .egress, .egress, .egress, .egress, .egress,
+    .egress, .egress, .egress, .egress, .egress, .egress, .egress, .egress, .egress, .egress, .egress,
+    .egress, .egress, .egress, .egress, .egress, .egress, .egress, .egress, .egress, .egress, .egress,
+    .egress, .egress, .egress, .egress, .egress, .egress, .stat, .listen 1 1 srv]
 
 def witness_lostRst : List Op :=
     [.listen 1 0 srv, .connect 0 0 0 srv, .egress, .deliver 0, .egress, .deliver 1, .cpoll 0 0,
@@ -294,7 +298,8 @@ def witness_lostRst : List Op :=
     .deliver 5, .shutdown 0, .egress, .deliver 6, .egress, .deliver 7, .sdrop 0, .egress, .sdrop 1,
     .egress, .drop 8, .ldrop 0, .egress, .egress, .egress, .egress, .egress, .egress, .egress, .egress,
     .egress, .egress, .egress, .egress, .egress, .egress, .egress, .egress, .egress, .egress, .egress,
-    .egress, .egress, .egress, .egress, .egress, .stat]
+    .egress, .egress, .egress, .egress, .egress, .egress, .egress, .egress, .egress, .egress, .egress,
+    .egress, .egress, .egress, .egress, .egress, .egress, .stat]
 
 set_option maxRecDepth 100000 in
 /-- F-C13-1: a connect is cancelled after its SYN reached the listener. The server's SYN-ACK draws an
@@ -333,7 +338,8 @@ def witness_dataAfterClose : List Op :=
     9, 10, 11, 12], .egress, .deliver 4, .deliver 5, .deliver 6, .egress, .deliver 7, .deliver 8,
     .sdrop 0, .ldrop 0, .egress, .egress, .egress, .egress, .egress, .egress, .egress, .egress,
     .egress, .egress, .egress, .egress, .egress, .egress, .egress, .egress, .egress, .egress, .egress,
-    .egress, .egress, .egress, .egress, .egress, .stat]
+    .egress, .egress, .egress, .egress, .egress, .egress, .egress, .egress, .egress, .egress, .egress,
+    .egress, .egress, .egress, .egress, .egress, .egress, .stat]
 
 def fixed_dataAfterClose : List Op :=
     [.listen 1 0 srv, .connect 0 0 0 srv, .egress, .deliver 0, .egress, .deliver 1, .cpoll 0 0,
@@ -341,7 +347,25 @@ def fixed_dataAfterClose : List Op :=
     9, 10, 11, 12], .egress, .deliver 4, .deliver 5, .deliver 6, .egress, .deliver 7, .deliver 8,
     .sdrop 0, .ldrop 0, .egress, .deliver 9, .egress, .egress, .egress, .egress, .egress, .egress,
     .egress, .egress, .egress, .egress, .egress, .egress, .egress, .egress, .egress, .egress, .egress,
+    .egress, .egress, .egress, .egress, .egress, .egress, .egress, .egress, .egress, .egress, .egress,
+    .egress, .egress, .egress, .egress, .egress, .egress, .egress, .stat]
+
+def fixed_lostRst : List Op :=
+    [.listen 1 0 srv, .connect 0 0 0 srv, .egress, .deliver 0, .egress, .deliver 1, .cpoll 0 0,
+    .egress, .deliver 2, .accept 0 1, .write 0 [1, 2, 3], .egress, .deliver 3, .egress, .deliver 4,
+    .deliver 5, .shutdown 0, .egress, .deliver 6, .egress, .deliver 7, .sdrop 0, .egress, .sdrop 1,
+    .egress, .drop 8, .ldrop 0, .egress, .egress, .egress, .egress, .egress, .egress, .egress, .egress,
+    .egress, .egress, .egress, .egress, .egress, .egress, .egress, .egress, .egress, .egress, .egress,
+    .egress, .egress, .egress, .egress, .egress, .egress, .egress, .egress, .egress, .egress, .egress,
     .egress, .egress, .egress, .egress, .egress, .egress, .stat]
+
+set_option maxRecDepth 100000 in
+/-- With the orphan-timeout repair (`fixOrphanTimeout`: `check_retx` also sweeps sockets the
+    application has closed, so a silent one is aborted after `retx_threshold · (retx_max + 1)`
+    passes and reaped) the same history reclaims everything. -/
+theorem fixed_F_C13_2 :
+    Spec.c13Check { fixOrphanTimeout := true } (Spec.modelHistory { fixOrphanTimeout := true } 2 fixed_lostRst) = none := by
+  decide
 
 def cfgSmallWindow : Cfg := { recvCap := 4 }
 
